@@ -156,8 +156,10 @@ class BinningBase:
         if not widths.size:
             return True
         # Relative to the widths themselves (differences compared with zero would leave
-        # the absolute tolerance only: every binning of nanoseconds would be regular)
-        return bool(np.allclose(widths, widths[0], rtol=rtol, atol=atol))
+        # the absolute tolerance only: every binning of nanoseconds would be regular),
+        # plus the rounding of the edges they are differences of (equal bins far from zero)
+        rounding = 4 * np.spacing(np.max(np.abs(self.bins)))
+        return bool(np.allclose(widths, widths[0], rtol=rtol, atol=atol + rounding))
 
     def is_consecutive(self, rtol: float = 0.0, atol: float = 0.0) -> bool:
         """Whether all bins are in a growing order.
